@@ -988,7 +988,9 @@ impl<'a, 'tcx> Cx<'a, 'tcx> {
                 ProjectionElem::ConstantIndex { offset, from_end, .. } => {
                     format!("[c{}{}]", if from_end { "-" } else { "" }, offset)
                 }
-                ProjectionElem::Subslice { .. } => "[..]".to_string(),
+                ProjectionElem::Subslice { from, to, from_end } => {
+                    format!("[{}..{}{}]", from, if from_end { "-" } else { "" }, to)
+                }
                 ProjectionElem::Downcast(name, vi) => match name {
                     Some(n) => format!("as {}", n),
                     None => format!("as #{}", vi.as_u32()),
